@@ -25,9 +25,12 @@ type ReplayResult struct {
 	Output          string   `json:"output,omitempty"`
 }
 
-func findUnit(verifDir string, cc *CheckCfg, harness string) *Unit {
+func findUnit(verifDir string, cc *CheckCfg, harness, pkg string) *Unit {
 	re := regexp.MustCompile(`(?m)^func ` + regexp.QuoteMeta(harness) + `\(`)
 	for i := range cc.Units {
+		if pkg != "" && cc.Units[i].Pkg != pkg {
+			continue
+		}
 		for _, f := range cc.Units[i].Files {
 			src, err := os.ReadFile(filepath.Join(verifDir, f))
 			if err == nil && re.Match(src) {
@@ -59,7 +62,7 @@ func replayNative(verifDir, repoDir string, cc *CheckCfg, cexPath string) Replay
 	if !contains(cc.Replayable, cex.Harness) {
 		return ReplayResult{Reason: "harness uses symbolic-only stubs (rt.Override / rt.Abstract / uninterpreted library functions): no native replay"}
 	}
-	u := findUnit(verifDir, cc, cex.Harness)
+	u := findUnit(verifDir, cc, cex.Harness, cex.Pkg)
 	if u == nil {
 		return ReplayResult{Reason: "harness not found"}
 	}
